@@ -147,5 +147,214 @@ theorem callSeqG_concat {rem : σ → Bytes} {I : σ → Option Int → Prop}
     · simp only [callSeqG, h1, h2]
     · rw [List.flatten_cons, List.flatten_append, List.append_assoc, hcat2, hcat1]
 
+
+/-! ## decoding off -/
+
+/-- `read(a)`, `a > 0`, with `decode_content=False` on an undecoded response: the next raw bytes;
+the file is left as `_raw_read(a)` left it -/
+theorem read_raw_some {rem : σ → Bytes} {I : σ → Option Int → Prop} (hR : RawReadSpec S cfg rem I)
+    (dco : Option Bool) (hdc : dco.getD cfg.decodeDefault = false) (a : Nat) (ha : 0 < a)
+    (r : R σ δ) (raw : Bytes) (hinv : RawInv rem I r raw) :
+    ∃ r', read S D cfg r (some a) dco = (.ok (raw.take a), r') ∧ RawInv rem I r' (raw.drop a) ∧
+      (ClosesN S cfg rem I → raw = [] → S.isclosed r'.fp = true) := by
+  obtain ⟨hI, hu, hb, hl⟩ := hinv
+  obtain ⟨g1, g2, g3, g4⟩ := initDec_other cfg r
+  unfold read
+  simp only [hdc]
+  generalize initDec cfg r = r0 at *
+  have hI0 : I r0.fp r0.lengthRemaining := by rw [g1, g3]; exact hI
+  have hb0 : bqLen r0.buf = 0 := by rw [g2]; exact hb
+  have hlt : ¬ bqLen r0.buf ≥ a := by omega
+  simp only [hlt, if_false]
+  obtain ⟨r1, h1, hrem1, hI1, hb1, _, hh1⟩ := hR.spec r0 a ha hI0
+  have hcl : ClosesN S cfg rem I → raw = [] → S.isclosed r1.fp = true := by
+    intro hC hr
+    have := hC r0 a ha hI0 (by rw [g1, hl, hr])
+    rw [h1] at this
+    exact this
+  rw [h1]
+  simp only []
+  have hbq : bqLen r1.buf = 0 := by rw [hb1]; exact hb0
+  have hhd : r1.hasDecoded = false := by rw [hh1, g4]; exact hu
+  refine ⟨r1, ?_, ⟨hI1, hhd, hbq, by rw [hrem1, g1, hl]⟩, hcl⟩
+  rw [g1, hl]
+  by_cases hc : (raw.take a).isEmpty = true ∧ bqLen r1.buf = 0
+  · rw [if_pos hc]
+  · rw [if_neg hc]
+    simp [hhd]
+
+/-- `read()` with `decode_content=False` on an undecoded response: all the raw bytes that are left -/
+theorem read_raw_none {rem : σ → Bytes} {I : σ → Option Int → Prop} (hA : RawReadAllSpec S cfg rem I)
+    (dco : Option Bool) (hdc : dco.getD cfg.decodeDefault = false)
+    (r : R σ δ) (raw : Bytes) (hinv : RawInv rem I r raw) :
+    ∃ r', read S D cfg r none dco = (.ok raw, r') ∧ RawInv rem I r' [] ∧
+      (ClosesAll S cfg I → S.isclosed r'.fp = true) := by
+  obtain ⟨hI, hu, hb, hl⟩ := hinv
+  obtain ⟨g1, g2, g3, g4⟩ := initDec_other cfg r
+  unfold read
+  simp only [hdc]
+  generalize initDec cfg r = r0 at *
+  have hI0 : I r0.fp r0.lengthRemaining := by rw [g1, g3]; exact hI
+  have hb0 : bqLen r0.buf = 0 := by rw [g2]; exact hb
+  obtain ⟨r1, h1, hrem1, hI1, hb1, _, hh1, _⟩ := hA.spec r0 hI0
+  have hcl : ClosesAll S cfg I → S.isclosed r1.fp = true := by
+    intro hC
+    have := hC r0 hI0
+    rw [h1] at this
+    exact this
+  rw [h1]
+  simp only []
+  have hbq : bqLen r1.buf = 0 := by rw [hb1]; exact hb0
+  have hhd : r1.hasDecoded = false := by rw [hh1, g4]; exact hu
+  refine ⟨r1, ?_, ⟨hI1, hhd, hbq, hrem1⟩, hcl⟩
+  rw [g1, hl]
+  by_cases hc : raw.isEmpty = true ∧ bqLen r1.buf = 0
+  · rw [if_pos hc]
+  · rw [if_neg hc]
+    simp [decode, hhd, prependBuffered, hbq]
+
+/-- the non-chunked branch of `stream(amt, decode_content=False)` from an undecoded state:
+terminates, never raises, the pieces are the raw bytes that were left -/
+theorem streamLoop_concat_raw {rem : σ → Bytes} {I : σ → Option Int → Prop}
+    (hR : RawReadSpec S cfg rem I) (hA : RawReadAllSpec S cfg rem I)
+    (hCN : ClosesN S cfg rem I) (hCA : ClosesAll S cfg I) (hZ : ClosedNil S rem I)
+    (amt : Option Nat) (hamt : amt ≠ some 0) (dco : Option Bool) (hdc : dco.getD cfg.decodeDefault = false) :
+    ∀ (fuel : Nat) (r : R σ δ) (raw : Bytes) (acc : List Bytes), RawInv rem I r raw →
+      2 * raw.length + (if S.isclosed r.fp = true then 0 else 1) < fuel →
+      ∃ ps r', streamLoop S D cfg amt dco fuel r acc = ((acc ++ ps, none), r') ∧ ps.flatten = raw ∧
+        RawInv rem I r' [] := by
+  intro fuel
+  induction fuel with
+  | zero => intro r raw acc _ h; omega
+  | succ k ih =>
+    intro r raw acc hinv hm
+    unfold streamLoop
+    have hb : ¬ bqLen r.buf > 0 := by have := hinv.nobuf; omega
+    by_cases hc : (!S.isclosed r.fp) = true ∨ bqLen r.buf > 0
+    · rw [if_pos hc]
+      have hopen : S.isclosed r.fp = false := by
+        rcases hc with h | h
+        · simpa using h
+        · exact absurd h hb
+      rw [hopen] at hm
+      simp only [Bool.false_eq_true, if_false] at hm
+      -- one read
+      have hstep : ∃ out r1, read S D cfg r amt dco = (.ok out, r1) ∧ RawInv rem I r1 (raw.drop out.length) ∧
+          out = raw.take out.length ∧ (out = [] → S.isclosed r1.fp = true) := by
+        cases amt with
+        | none =>
+          obtain ⟨r1, h1, h2, h3⟩ := read_raw_none S D cfg hA dco hdc r raw hinv
+          exact ⟨raw, r1, h1, by simpa using h2, by simp, fun _ => h3 hCA⟩
+        | some a =>
+          have ha : 0 < a := Nat.pos_of_ne_zero (fun h0 => hamt (by rw [h0]))
+          obtain ⟨r1, h1, h2, h3⟩ := read_raw_some S D cfg hR dco hdc a ha r raw hinv
+          refine ⟨raw.take a, r1, h1, ?_, ?_, ?_⟩
+          · rw [List.length_take]
+            by_cases hle : a ≤ raw.length
+            · rw [Nat.min_eq_left hle]; exact h2
+            · rw [Nat.min_eq_right (by omega)]
+              have e1 : raw.drop a = [] := List.drop_eq_nil_of_le (by omega)
+              have e2 : raw.drop raw.length = [] := List.drop_eq_nil_of_le (Nat.le_refl _)
+              rw [e2, ← e1]; exact h2
+          · rw [List.length_take]
+            by_cases hle : a ≤ raw.length
+            · rw [Nat.min_eq_left hle]
+            · rw [Nat.min_eq_right (by omega), List.take_of_length_le (by omega), List.take_of_length_le (Nat.le_refl _)]
+          · intro h0
+            apply h3 hCN
+            rcases List.take_eq_nil_iff.mp h0 with h | h
+            · omega
+            · exact h
+      obtain ⟨out, r1, h1, hinv1, hout, hcl1⟩ := hstep
+      rw [h1]
+      simp only []
+      obtain ⟨ps, r', e1, e2, e3⟩ := ih r1 (raw.drop out.length) (if out.isEmpty then acc else acc ++ [out]) hinv1
+        (by
+          by_cases ho : out = []
+          · rw [hcl1 ho]; simp [ho]; omega
+          · have h1 : 0 < out.length := List.length_pos_iff.mpr ho
+            have h2 : out.length ≤ raw.length := by
+              have := congrArg List.length hout
+              rw [List.length_take] at this; omega
+            rw [List.length_drop]
+            split <;> omega)
+      rw [e1]
+      by_cases ho : out = []
+      · subst ho
+        exact ⟨ps, r', by simp, by simpa using e2, e3⟩
+      · have : out.isEmpty = false := by simpa [List.isEmpty_iff] using ho
+        refine ⟨[out] ++ ps, r', by simp [this], ?_, e3⟩
+        rw [List.flatten_append, e2]
+        simp only [List.flatten_cons, List.flatten_nil, List.append_nil]
+        conv => rhs; rw [← List.take_append_drop out.length raw]
+        rw [← hout]
+    · rw [if_neg hc]
+      have hcl : S.isclosed r.fp = true := by
+        cases h : S.isclosed r.fp with
+        | true => rfl
+        | false => exact absurd (Or.inl (by simp [h])) hc
+      have hrem : rem r.fp = [] := hZ r.fp r.lengthRemaining hinv.framing hcl
+      have hr : raw = [] := by rw [← hinv.left]; exact hrem
+      subst hr
+      exact ⟨[], r, by simp, rfl, hinv⟩
+
+/-- one call of the API on a non-chunked body with decoding off (iteration always decodes and is
+not a member) -/
+theorem runCall_raw_spec {rem : σ → Bytes} {I : σ → Option Int → Prop}
+    (hR : RawReadSpec S cfg rem I) (hA : RawReadAllSpec S cfg rem I) (hR1 : RawRead1Spec S cfg rem I)
+    (hCN : ClosesN S cfg rem I) (hCA : ClosesAll S cfg I) (hZ : ClosedNil S rem I)
+    (dco : Option Bool) (hdc : dco.getD cfg.decodeDefault = false) (hdef : cfg.decodeDefault = false)
+    (hnc : cfg.chunked = false) (c : Call) (hc : c ≠ .stream (some 0)) (hi : c ≠ .iter) (r : R σ δ) (raw : Bytes)
+    (hinv : RawInv rem I r raw) (hfuelS : 2 * raw.length + 1 < cfg.fuel) :
+    ∃ ps r' raw', runCall S D cfg dco r c = ((ps, none), r') ∧ RawInv rem I r' raw' ∧
+      ps.flatten ++ raw' = raw := by
+  cases c with
+  | read a =>
+    obtain ⟨out, r1, raw1, h1, h2, h3, _⟩ := runRCall_raw S D cfg hR hA hR1 dco hdc (.read a) r raw hinv
+    have h1' : read S D cfg r a dco = (.ok out, r1) := h1
+    exact ⟨[out], r1, raw1, by simp [runCall, single, h1'], h2, by simpa using h3⟩
+  | read1 a =>
+    obtain ⟨out, r1, raw1, h1, h2, h3, _⟩ := runRCall_raw S D cfg hR hA hR1 dco hdc (.read1 a) r raw hinv
+    have h1' : read1 S D cfg r a dco = (.ok out, r1) := h1
+    exact ⟨[out], r1, raw1, by simp [runCall, single, h1'], h2, by simpa using h3⟩
+  | readinto k =>
+    obtain ⟨out, r1, raw1, h1, h2, h3, _⟩ := runRCall_raw S D cfg hR hA hR1 none (by simpa using hdef)
+      (.read (some k)) r raw hinv
+    have h1' : read S D cfg r (some k) none = (.ok out, r1) := h1
+    exact ⟨[out], r1, raw1, by simp [runCall, single, readinto, h1'], h2, by simpa using h3⟩
+  | stream a =>
+    have ha : a ≠ some 0 := fun h0 => hc (by rw [h0])
+    obtain ⟨ps, r', h1, h2, h3⟩ := streamLoop_concat_raw S D cfg hR hA hCN hCA hZ a ha dco hdc cfg.fuel r raw []
+      hinv (by split <;> omega)
+    refine ⟨ps, r', [], ?_, h3, by simpa using h2⟩
+    simp only [runCall, stream, hnc, Bool.false_eq_true, if_false]
+    simpa using h1
+  | iter => exact absurd rfl hi
+
+/-- **concatenation over the API with decoding off** (non-chunked body): the pieces of all calls
+followed by what is still to come are the raw payload -/
+theorem callSeqG_concat_raw {rem : σ → Bytes} {I : σ → Option Int → Prop}
+    (hR : RawReadSpec S cfg rem I) (hA : RawReadAllSpec S cfg rem I) (hR1 : RawRead1Spec S cfg rem I)
+    (hCN : ClosesN S cfg rem I) (hCA : ClosesAll S cfg I) (hZ : ClosedNil S rem I)
+    (dco : Option Bool) (hdc : dco.getD cfg.decodeDefault = false) (hdef : cfg.decodeDefault = false)
+    (hnc : cfg.chunked = false) :
+    ∀ (calls : List Call) (r : R σ δ) (raw : Bytes), (∀ c ∈ calls, c ≠ .stream (some 0) ∧ c ≠ .iter) →
+      RawInv rem I r raw → 2 * raw.length + 1 < cfg.fuel →
+      ∃ pss r' raw', callSeqG S D cfg dco calls r = ((pss, none), r') ∧ RawInv rem I r' raw' ∧
+        pss.flatten.flatten ++ raw' = raw ∧ pss.length = calls.length := by
+  intro calls
+  induction calls with
+  | nil => intro r raw _ hinv _; exact ⟨[], r, raw, rfl, hinv, rfl, rfl⟩
+  | cons c t ih =>
+    intro r raw hcs hinv hfS
+    obtain ⟨ps, r1, raw1, h1, hinv1, hcat1⟩ := runCall_raw_spec S D cfg hR hA hR1 hCN hCA hZ dco hdc hdef hnc
+      c (hcs c (by simp)).1 (hcs c (by simp)).2 r raw hinv hfS
+    have hrl : raw1.length ≤ raw.length := by
+      rw [← hcat1, List.length_append]; omega
+    obtain ⟨pss, r2, raw2, h2, hinv2, hcat2, hl2⟩ := ih r1 raw1 (fun x hx => hcs x (by simp [hx])) hinv1 (by omega)
+    refine ⟨ps :: pss, r2, raw2, ?_, hinv2, ?_, by simp [hl2]⟩
+    · simp only [callSeqG, h1, h2]
+    · rw [List.flatten_cons, List.flatten_append, List.append_assoc, hcat2, hcat1]
+
 end
 end U3.Resp
